@@ -49,6 +49,10 @@ def gen(rng, tier):
     eps = '_'
     cases.append({'kind': 'pda', 'limit': 6, 'X': {'Q': ['q0', 'a1', 'a2', 'a3', 'a4'], 'Sigma': ['a'], 'Gamma': ['x'], 'eps': eps, 'q0': 'q0', 'F': ['a4'],
                   'delta': [['q0', eps, eps, 'q0', 'x'], ['q0', eps, eps, 'a1', eps], ['a1', eps, eps, 'a2', eps], ['a2', eps, eps, 'a3', eps], ['a3', eps, eps, 'a4', eps]]}})
+    for (x, y, q0, q1) in [('x', 'y', 'q0', 'q1'), ('u', 'v', 's', 't'), ('m', 'n', 'p', 'r'), ('1', '2', 'A', 'B'), ('k', 'j', 'c', 'd'), ('g', 'h', 'e0', 'e1')]:
+        for lim in (4, 7):
+            cases.append({'kind': 'pda', 'limit': lim, 'X': {'Q': [q0, q1], 'Sigma': ['a'], 'Gamma': [x, y], 'eps': eps, 'q0': q0, 'F': [q1],
+                          'delta': [[q0, eps, eps, q0, x], [q0, eps, eps, q0, y], [q0, 'a', y, q1, eps], [q0, 'a', x, q0, eps]]}})
     import props.C11 as C11
     for t in C11.gen(rng, tier)[-(k // 3):]:
         t = dict(t)
